@@ -41,7 +41,7 @@ func runC04(c *fw.Case) {
 		runCompiledScenario(c, "C04")
 		return
 	}
-	s := newScen(c, gen.PkgOpts{})
+	s := newScen(c, gen.PkgOpts{FSBProb: 0.2})
 	defer s.close()
 	outs := s.outputs()
 	if c.Violated() || len(outs) == 0 {
@@ -107,6 +107,7 @@ func runC04(c *fw.Case) {
 				dir, _ := os.MkdirTemp(os.Getenv("VH_SCRATCH"), "st2-")
 				defer os.RemoveAll(dir)
 				cl = sim.NewCluster(dir, s.seg, s.cl.Head)
+				cl.FirstStreamable = s.fsb
 			}
 			rq := base
 			rq.Cursor = d.Cursor
